@@ -32,6 +32,7 @@ EXPLANATION = (
     "batch-flush equality. (f) the Parquet chunk iterator re-bases each "
     "batch's row index by (batch number x requested chunk size) so the row "
     "index continues across chunks like the text reader's; both row "
+    "Also: every worker-count parameter is only handed on as a worker count (who-may-use rule, shared with C08). "
     "iterators of merge_sort traverse every chunk completely. NOT decided: "
     "floating-point summation differences, estimator thread-safety.")
 TECHNIQUE = ("parallel-effect analysis (mutated-parameter summaries + "
